@@ -224,20 +224,36 @@ func execute(c Case) ([]*execution, error) {
 	if par < 1 {
 		par = 1
 	}
+	cases := make([]Case, par)
+	for k := range cases {
+		cases[k] = c
+	}
+	var shared *api.LinuxResources
+	if c.Share && c.Kind == "update" {
+		// two requests one after the other, the caller's resources object reused
+		cases = []Case{c, followUp(c)}
+		par = 2
+		shared = reqResources(c)
+		if len(c.Req) == 0 && c.Orig.NilParts {
+			cases = cases[:1] // nothing to share
+			par = 1
+		}
+	}
 	exs := make([]*execution, par)
 	var wg sync.WaitGroup
 	for k := 0; k < par; k++ {
+		c := cases[k]
 		n := idCtr.Add(1)
 		ex := &execution{c: c,
 			id: ids{self: fmt.Sprintf("c%d", n), tgt: map[string]string{
-				"T1": fmt.Sprintf("t1-%d", n), "T2": fmt.Sprintf("t2-%d", n), "T3": fmt.Sprintf("t3-%d", n)}},
+				"T1": fmt.Sprintf("t1-%d", n), "T2": fmt.Sprintf("t2-%d", n), "T3": fmt.Sprintf("t3-%d", n), "T0": ""}},
 			seenCtr: map[int]*api.Container{}, seenRes: map[int]*api.LinuxResources{}, seenPod: map[int]*api.PodSandbox{},
 		}
 		ex.pod = &api.PodSandbox{Id: "pod-" + ex.id.self, Name: "pod", Namespace: "ns", Annotations: map[string]string{"pa": "pv"}}
 		exs[k] = ex
 		f.execs.Store(ex.id.self, ex)
 		wg.Add(1)
-		go func() {
+		run := func() {
 			defer wg.Done()
 			defer f.execs.Delete(ex.id.self)
 			ctx := context.Background()
@@ -256,6 +272,9 @@ func execute(c Case) ([]*execution, error) {
 				if len(c.Req) == 0 && c.Orig.NilParts {
 					rr = nil // an update request without a resources section at all
 				}
+				if shared != nil {
+					rr = shared
+				}
 				r, err := f.rt.A.UpdateContainer(ctx, &api.UpdateContainerRequest{Pod: proto.Clone(ex.pod).(*api.PodSandbox), Container: ct, LinuxResources: rr})
 				if r != nil {
 					ex.resp = r
@@ -269,7 +288,12 @@ func execute(c Case) ([]*execution, error) {
 				ex.err = err
 			}
 			ex.duration = time.Since(t0)
-		}()
+		}
+		if shared != nil {
+			run()
+		} else {
+			go run()
+		}
 	}
 	wg.Wait()
 	for _, ex := range exs {
